@@ -13,3 +13,5 @@ import Bw.Props.C03
 #print axioms Bw.Props.C03.sorted_tail
 #print axioms Bw.Props.C03.insertBlock_sorted
 #print axioms Bw.Props.C03.sortBlocks_sorted
+#print axioms Bw.Props.C03.normalise_keeps_line_structure
+#print axioms Bw.Props.C03.tag_position_is_source_position
